@@ -195,6 +195,73 @@ func (g *Gen) runBody() {
 // lookupVar finds the value of source variable `name` as of the end of block blk (idx = -1: whole block).
 func (g *Gen) lookupVar(name string, blk *ssa.BasicBlock, idx int, st *State) (Val, bool) {
 	refs := g.debugVals[name]
+	// several variables may share the name (shadowing): keep the one in scope at lookupPos
+	if len(refs) > 1 && g.lookupPos.IsValid() {
+		var best types.Object
+		distinct := map[types.Object]bool{}
+		for _, r := range refs {
+			distinct[r.obj] = true
+		}
+		if len(distinct) > 1 {
+			for o := range distinct {
+				if sc := o.Parent(); sc != nil && sc.Contains(g.lookupPos) && o.Pos() <= g.lookupPos {
+					if best == nil || o.Pos() > best.Pos() {
+						best = o
+					}
+				}
+			}
+			if best != nil {
+				var keep []debugRef
+				for _, r := range refs {
+					if r.obj == best {
+						keep = append(keep, r)
+					}
+				}
+				refs = keep
+			}
+		}
+	}
+	// a variable that lives in a cell (address taken, or a named result of a function with defers)
+	// is read from the cell in the state the expression is evaluated in
+	var cell *ssa.Alloc
+	for _, l := range g.fn.Locals {
+		if l.Comment != name {
+			continue
+		}
+		if _, isStruct := l.Type().Underlying().(*types.Pointer).Elem().Underlying().(*types.Struct); isStruct {
+			continue
+		}
+		if _, done := g.vals[l]; !done {
+			continue
+		}
+		if cell == nil || (g.lookupPos.IsValid() && l.Pos() <= g.lookupPos && l.Pos() > cell.Pos()) {
+			cell = l
+		}
+	}
+	if cell != nil {
+		p := g.val(cell)
+		if p.Addr != nil {
+			save := g.cur
+			v := g.loadQuiet(st, p, p.Addr.ElemT)
+			g.cur = save
+			return v, true
+		}
+	}
+	for _, r := range refs {
+		if r.addr {
+			if _, ok := g.vals[r.val]; !ok {
+				if _, isGlobal := r.val.(*ssa.Global); !isGlobal {
+					continue
+				}
+			}
+			p := g.val(r.val)
+			elem := r.val.Type().Underlying().(*types.Pointer).Elem()
+			save := g.cur
+			v := g.loadQuiet(st, p, elem)
+			g.cur = save
+			return v, true
+		}
+	}
 	for b := blk; b != nil; b = b.Idom() {
 		limit := len(b.Instrs)
 		if b == blk && idx >= 0 {
@@ -250,6 +317,15 @@ func (g *Gen) loadQuiet(st *State, p Val, elem types.Type) Val {
 
 func (g *Gen) loopEnv(li *loopInfo, st *State, phiVals map[string]Val, blk *ssa.BasicBlock) *Env {
 	env := g.fnEnv(st, nil)
+	g.lookupPos = token.NoPos
+	if li.header != nil {
+		for _, in := range li.header.Instrs {
+			if in.Pos().IsValid() {
+				g.lookupPos = in.Pos()
+				break
+			}
+		}
+	}
 	env.lookup = func(name string) (Val, bool) {
 		if v, ok := phiVals[name]; ok {
 			return v, true
